@@ -1,6 +1,7 @@
 import DeltaModel.Blame
 import Proofs.BlameColour
 import Proofs.BlameParse
+import Proofs.BlameRender
 /-!
 C17 — git blame output keeps code and attribution; colours follow commits.
 
@@ -230,5 +231,138 @@ theorem one_char_author_status :
       parseBlame Generated.Blame.authorMode "abcd1234 (X 2021-08-22 18:20:19 -0700 1) code".toList =
         some ⟨"abcd1234".toList, "X".toList, "2021-08-22 18:20:19 -0700".toList, 1, " code".toList⟩) := by
   decide
+
+/-! ## Lines coloured by git mixed with uncoloured ones (`delta_unreachable`) -/
+
+/-- Whenever the `get_color` match of the source has no `delta_unreachable` arm left
+(`armsTotal`, a finite check of the generated table), no blame stream — whatever mix of lines
+that git coloured itself — can abort. (Holds for every table; it is the statement that applies
+once the defect below is repaired.) -/
+theorem mixed_stream_total_of_total_arms (h : armsTotal = true) (pal : List Colour) (hpal : pal ≠ [])
+    (hist : List (Key × Bool)) :
+    ∃ ps, paintsOf pal hist = some ps ∧ ps.length = hist.length := by
+  obtain ⟨s, ps, hr, hl⟩ := run_total_of_armsTotal h pal hpal hist {}
+  exact ⟨ps, by simp [paintsOf, hr], hl⟩
+
+/-- DEFECT (confirmed on the binary, exit status 2): with the arms as they are in the source both
+`delta_unreachable` arms are reachable — a line coloured by git followed by an uncoloured line
+of the same key, and an uncoloured known key after a coloured line. Second disjunct: the table
+is total (after the proposed fix) and both streams are painted. -/
+theorem mixed_colouring_status :
+    (armsTotal = false ∧
+      paintsOf [['1'], ['2']] [(['k'], true), (['k'], false)] = none ∧
+      paintsOf [['1'], ['2']] [(['a'], false), (['b'], true), (['a'], false)] = none) ∨
+    (armsTotal = true ∧
+      (paintsOf [['1'], ['2']] [(['k'], true), (['k'], false)]).isSome = true ∧
+      (paintsOf [['1'], ['2']] [(['a'], false), (['b'], true), (['a'], false)]).isSome = true) := by
+  decide
+
+/-! ## The rendered row -/
+
+/-- `format_blame_metadata` cannot panic when the padding arithmetic saturates
+(`metaPadArith = 1`, the proposed fix) or when no character is wider than one cell. -/
+theorem meta_no_panic (cw : Char → Nat) (items : List Item) (ts author commit : Str)
+    (h : Generated.Blame.metaPadArith ≠ 0 ∨ ∀ c, cw c ≤ 1) :
+    ∃ key, formatMeta Generated.Blame.metaPadArith cw items ts author commit = .ok key :=
+  formatMetaGo_ok _ cw ts author commit h items [] []
+
+def wideCw (c : Char) : Nat := if c.toNat ≥ 0x2E80 then 2 else 1
+def authorItem : Item := ⟨[], some .author, some .left, some 15, some 14, []⟩
+
+/-- DEFECT (confirmed on the binary): with the checked `usize` subtraction an author containing
+wide characters (display width > number of chars) panics; with the saturating form it is padded
+to the display width. -/
+theorem wide_author_status :
+    (Generated.Blame.metaPadArith = 0 ∧
+      formatMeta Generated.Blame.metaPadArith wideCw [authorItem] [] "日本".toList "abcd1234".toList =
+        .error .subOverflow) ∨
+    (Generated.Blame.metaPadArith = 1 ∧
+      formatMeta Generated.Blame.metaPadArith wideCw [authorItem] [] "日本".toList "abcd1234".toList =
+        .ok ("日本".toList ++ spaces 11)) := by
+  decide
+
+/-- The metadata column shows every field the format asks for (whole, or its first `p`
+characters under a precision `.p`): in particular the commit whenever the format contains
+`{commit}`. The metadata string is also the colour key, so the key contains the commit. -/
+theorem metadata_shows_attribution (arith : Nat) (cw : Char → Nat) (items : List Item)
+    (ts author commit key : Str) (h : formatMeta arith cw items ts author commit = .ok key)
+    (it : Item) (hit : it ∈ items) (ph : Field) (hph : it.ph = some ph) :
+    (match it.prec with
+     | none => fieldText ph ts author commit
+     | some p => (fieldText ph ts author commit).take p) <:+: key :=
+  formatMetaGo_shows arith cw ts author commit items [] [] key h it hit ph hph
+
+example : formatMeta 0 (fun _ => 1)
+    [⟨[], some .timestamp, some .left, some 15, none, []⟩, ⟨[' '], some .author, some .left, some 15, some 14, []⟩,
+     ⟨[' '], some .commit, some .left, some 8, none, []⟩]
+    "2021-08-22".toList "Dan Davison".toList "abcd123".toList =
+    .ok "2021-08-22      Dan Davison     abcd123 ".toList := by decide
+
+/-- Colours follow commits: with a format whose last placeholder is `{commit}` (left aligned, no
+precision, a blank before it, nothing after it) the metadata key — which is what the colour memo
+is indexed by and what repeat-blanking compares — determines the commit. -/
+theorem key_determines_commit (arith : Nat) (cw : Char → Nat) (items : List Item) (it : Item)
+    (hph : it.ph = some .commit) (hprec : it.prec = none) (hal : it.align.getD .left = .left)
+    (hpre : ∃ p, it.pre = p ++ [' ']) (hsuf : it.suf = [])
+    (ts1 a1 c1 ts2 a2 c2 key : Str) (hc1 : c1 ≠ [] ∧ ' ' ∉ c1) (hc2 : c2 ≠ [] ∧ ' ' ∉ c2)
+    (h1 : formatMeta arith cw (items ++ [it]) ts1 a1 c1 = .ok key)
+    (h2 : formatMeta arith cw (items ++ [it]) ts2 a2 c2 = .ok key) : c1 = c2 :=
+  key_determines_commit_core arith cw items it hph hprec hal hpre ts1 a1 c1 ts2 a2 c2 key hc1 hc2 hsuf h1 h2
+
+/-- ... in particular with the default `--blame-format`. -/
+theorem default_key_determines_commit (arith : Nat) (cw : Char → Nat)
+    (ts1 a1 c1 ts2 a2 c2 key : Str) (hc1 : c1 ≠ [] ∧ ' ' ∉ c1) (hc2 : c2 ≠ [] ∧ ' ' ∉ c2)
+    (h1 : formatMeta arith cw defaultItems ts1 a1 c1 = .ok key)
+    (h2 : formatMeta arith cw defaultItems ts2 a2 c2 = .ok key) : c1 = c2 :=
+  key_determines_commit arith cw (defaultItems.take 2) ⟨[' '], some .commit, some .left, some 8, none, []⟩
+    rfl rfl rfl ⟨[], rfl⟩ rfl ts1 a1 c1 ts2 a2 c2 key hc1 hc2 h1 h2
+
+/-- Code and line number of a blame line reach the row intact, and the metadata is blanked
+exactly when the previous blame line had the same metadata: for a line `fmtBlame r …` (under
+the hypotheses of `blame_round_trip`) the row produced by `handle_blame_line` has
+* the code of `r` with tabs expanded (unchanged when it has no tab),
+* a number field made of blanks and the decimal digits of `r.lineNumber`, unless the line
+  repeats the key of the line above *and* the separator format is per-block / every-N,
+* the metadata `key = formatMeta …` of `r`, or blanks of the same display width iff the state
+  holds the same key (`State::Blame(key)` of the previous blame line). -/
+theorem code_and_number_intact (cfg : StreamCfg) (s s' : CState) (git : Bool) (o : Out)
+    (r : BlameRec) (file : Option Str) (padA padB : Nat)
+    (hmode : cfg.mode = Generated.Blame.authorMode)
+    (hc : validCommit r.commit) (hf : ∀ f, file = some f → '(' ∉ f)
+    (ha : 1 ≤ r.author.length) (ha0 : r.author.head? ≠ some ' ') (ha1 : r.author.getLast? ≠ some ' ')
+    (hts : tsShape r.ts = true) (htv : tsValid r.ts = true) (htn : normTs r.ts = r.ts)
+    (hn : r.lineNumber < 2 ^ 64)
+    (hgreedy : Generated.Blame.authorMode = 0 → 2 ≤ r.author.length ∧ noTail r.code = true)
+    (hlazy : Generated.Blame.authorMode = 1 → noBlankDigit r.author = true)
+    (h : streamStep cfg s (fmtBlame r file padA padB) git = .ok (s', o)) :
+    ∃ key colour row,
+      o = .row colour (decide (s.prev = some key)) key row ∧
+      formatMeta cfg.arith cfg.cw cfg.items (cfg.tsOut r.ts) r.author r.commit = .ok key ∧
+      s'.prev = some key ∧
+      row.code = Text.expand cfg.tab r.code ∧ ('\t' ∉ r.code → row.code = r.code) ∧
+      (∀ w, cfg.sep.width = some w → (cfg.sep.kind = .on ∨ s.prev ≠ some key) →
+        row.num.filter (· != ' ') = Nat.toDigits 10 r.lineNumber) ∧
+      (s.prev ≠ some key → row.metaCol = key) ∧
+      (s.prev = some key → row.metaCol = spaces (strWidth cfg.cw key)) := by
+  have hp : parseBlame cfg.mode (fmtBlame r file padA padB) = some r := by
+    rw [hmode]
+    exact blame_round_trip r file padA padB hc hf ha ha0 ha1 hts htv htn hn hgreedy hlazy
+  obtain ⟨key, colour, pre, num, suf, hkey, hnum, hprev, ho⟩ := streamStep_row cfg s s' _ git r o hp h
+  refine ⟨key, colour, _, ho, hkey, hprev, rfl, fun ht => expand_no_tab _ _ ht, ?_, ?_, ?_⟩
+  · intro w hw hshow
+    have hshow' : cfg.sep.kind = .on ∨ decide (s.prev = some key) = false := by
+      rcases hshow with h1 | h1
+      · exact Or.inl h1
+      · exact Or.inr (by simp [h1])
+    exact (fmtLineNumber_shows cfg.sep r.lineNumber _ pre num suf w hnum hw hshow').1
+  · intro hne
+    simp [hne]
+  · intro he
+    simp [he]
+
+/-- One output row (or raw pass-through) per input line, in order. -/
+theorem stream_one_row_per_line (cfg : StreamCfg) (lines : List (Str × Bool)) (outs : List Out)
+    (h : stream cfg {} lines = .ok outs) : outs.length = lines.length :=
+  stream_length cfg {} lines outs h
 
 end C17
